@@ -1265,7 +1265,9 @@ class Mesh:
                      for f in np.asarray(v)],
                     dtype=np.int32,
                 )
-                boundaries[k] = (OrientedBoundary(ix, v.ori)
+                # two tagged copies of a facet may have been merged
+                ix, first = np.unique(ix, return_index=True)
+                boundaries[k] = (OrientedBoundary(ix, v.ori[first])
                                  if isinstance(v, OrientedBoundary)
                                  and v.ori is not None else ix)
             out = replace(out, _boundaries=boundaries)
